@@ -241,6 +241,7 @@ theorem countZeros_spec (B : Nat → Bool) (ws : List Nat) (hp : Packs ws B)
     countZeros ws.toArray (BitList.ofList (len64 ((ranksOf ws).getLastD 0)) (ranksOf ws)) i =
       some (i - onesUpTo B i) := by
   unfold countZeros
+  simp only
   rw [ranksBL_get B ws hp hpos (i / 64) (by omega)]
   have hw : ws.toArray[i / 64]? = some ws[i / 64]! := by
     simp [List.getElem?_eq_getElem hi, List.getElem!_eq_getElem?_getD]
